@@ -66,6 +66,10 @@ def generate(seed, tier, k):
         return gen.maybe_units(doc)
     fam = r.choice(["linear", "quadratic", "full", "simplex", "simplex2"])
     mesh = gen.gen_mesh(r, allow=(fam,), max_cells=12)
+    if gen.kpick(seed, "nano-mesh", 5) == 0:
+        # a nanometre-sized part described in metres (coordinates of 1e-9)
+        mesh["a"] = [v * 1e-9 for v in mesh["a"]]
+        mesh["b"] = [v * 1e-9 for v in mesh["b"]]
     doc = {"kind": kind, "seed": seed, "mesh": mesh, "c20": {"kind": kind, "format": r.choice(FORMATS)}}
     if kind == "container":
         doc["c20"]["second"] = r.choice(["same-shifted", "same-touching", "other-type"])
@@ -618,7 +622,8 @@ def run_save(doc, log):
     region = world.build_region(m)
     field = fem.FieldContainer([fem.Field(region, dim=m.dim)])
     rng = np.random.default_rng(o["values_seed"])
-    field[0].values[:] = rng.normal(size=field[0].values.shape) * 0.01
+    span_ = float((m.points.max(0) - m.points.min(0)).max())
+    field[0].values[:] = rng.normal(size=field[0].values.shape) * 0.01 * span_
     forces = rng.normal(size=field[0].values.size) if o.get("with_forces") else None
     name = f"saved.{o['format']}"
     u0 = field[0].values.copy()
@@ -687,7 +692,7 @@ def run_save(doc, log):
     log.count("save-compared")
     # a loop that saves every state with ONE dictionary of additional point data (created before the
     # loop): the second file holds the second state
-    field[0].values[:] = 2.0 * u0 + 0.003
+    field[0].values[:] = 2.0 * u0 + 0.003 * span_
     u1 = field[0].values.copy()
     forces1 = None if forces is None else -0.5 * forces + 1.0
     name1 = f"saved-again.{o['format']}"
